@@ -125,10 +125,8 @@ def noUnusedFragments (d : Doc) : Prop :=
 /-- rules of the model for which no `rule_*_iff` theorem exists yet: their verdict equivalence and
     invariance rest on the correspondence check (harness/corr/C06_model.py) -/
 def Unproved : List String :=
-  ["NoUnusedFragmentsChecker",
-   "NoFragmentCyclesChecker", "UniqueVariableNamesChecker", "NoUndefinedVariablesChecker",
-   "NoUnusedVariablesChecker", "ValuesOfCorrectTypeChecker",
-   "VariablesInAllowedPositionChecker", "OverlappingFieldsCanBeMergedChecker"]
+  ["ValuesOfCorrectTypeChecker",
+   "OverlappingFieldsCanBeMergedChecker"]
 
 end PyGql.Validate.Spec
 
@@ -145,4 +143,13 @@ open PyGql PyGql.Validate
 /-- **5.6.3 Input object field uniqueness** -/
 def uniqueInputFieldNames (d : Doc) : Prop :=
   ∀ n ∈ nodes d, ∀ fs, n = Node.value (.obj fs) → (fs.map (·.name)).Nodup
+end PyGql.Validate.Spec
+
+namespace PyGql.Validate.Spec
+open PyGql PyGql.Validate
+/-- the clause `NoUnusedFragmentsChecker` implements (ledger V6): every defined fragment name is the target of SOME
+    spread of the document - also one made from a fragment that is itself unused. On documents without fragment
+    cycles this is equivalent to `noUnusedFragments` (5.5.1.4). -/
+def everyFragmentSpreadSomewhere (d : Doc) : Prop :=
+  ∀ n ∈ nodes d, ∀ name on dirs, n = Node.fragmentDef name on dirs → ∃ m ∈ nodes d, ∃ ds, m = Node.spread name ds
 end PyGql.Validate.Spec
